@@ -44,6 +44,19 @@ type c10Meta struct {
 	Cwds    []string          `json:"cwds"`
 	OutRel  []bool            `json:"out_rel"`
 	Cycle   bool              `json:"cross_file_cycle"`
+	// CrossCombo: some allOf/anyOf branch $ref points into another file (its
+	// properties are merged into the referrer: known finding KF-C10-2)
+	CrossCombo bool `json:"crossfile_combinator"`
+	PkgOf      map[string]string `json:"pkg_of"`    // tag -> package (base name) its id maps to
+	RecCombo   bool              `json:"rec_combo"` // a reference cycle runs through an allOf/anyOf branch
+	// MergedRel: the target of such a ref itself contains a relative $ref (fragment or
+	// relative file name): merged into the referrer it loses its document context.
+	MergedRel bool `json:"merged_target_has_relative_ref"`
+	// CrossPkgAnyOf: an anyOf branch $ref crosses packages (the branch type is
+	// regenerated as a copy in the referrer's package).
+	CrossPkgAnyOf bool `json:"crosspackage_anyof_ref"`
+	// CrossPkgEnum: a combinator ref crosses packages and its target holds an integer enum.
+	CrossPkgEnum bool `json:"crosspackage_merged_integer_enum"`
 	Feat    Feat              `json:"feat"`
 }
 
@@ -130,8 +143,10 @@ func (p c10) Gen(t *rapid.T, env *Env) (*Case, []*Out) {
 	}
 	w := GenWorldC10(t, maxFiles)
 	env.Stats.NoteFeat(w.Feat)
-	meta := c10Meta{Markers: map[string]string{}, Cycle: hasCrossFileCycle(w), Feat: w.Feat}
+	meta := c10Meta{Markers: map[string]string{}, Cycle: hasCrossFileCycle(w), Feat: w.Feat, PkgOf: map[string]string{}, RecCombo: hasRecursiveCombinator(w)}
 	for _, f := range w.Files {
+		_, pp := expectedRouting(w, f)
+		meta.PkgOf[f.Tag] = pp[strings.LastIndex(pp, "/")+1:]
 		for _, mk := range markersOf(f) {
 			meta.Markers[mk] = f.Tag
 		}
@@ -143,6 +158,34 @@ func (p c10) Gen(t *rapid.T, env *Env) (*Case, []*Out) {
 				return nil, nil
 			}
 			meta.Refs = append(meta.Refs, c10Ref{RefUse: r, ModelTag: mt, ModelDef: md})
+			if r.Combo != "" && !r.LocalOnly && r.ToTag != r.FromTag {
+				meta.CrossCombo = true
+				tf := w.File(r.ToTag)
+				var sub any = tf.Doc
+				if r.ToDef != "" {
+					for _, k := range []string{"$defs", "definitions"} {
+						if d, ok := tf.Doc.Get(k); ok {
+							if do, ok := d.(Obj); ok {
+								sub, _ = do.Get(r.ToDef)
+							}
+						}
+					}
+				} else {
+					// only the root's own keywords are merged, not its definitions
+					sub = tf.Doc.Del("$defs").Del("definitions")
+				}
+				if hasRelativeRef(sub) {
+					meta.MergedRel = true
+				}
+				if tf.Pkg != f.Pkg {
+					if r.Combo == "anyOf" {
+						meta.CrossPkgAnyOf = true
+					}
+					if hasIntegerEnum(sub) {
+						meta.CrossPkgEnum = true
+					}
+				}
+			}
 		}
 	}
 	// arguments: the ordinary files (special shadow files are reached by reference only)
@@ -176,7 +219,7 @@ func (p c10) Gen(t *rapid.T, env *Env) (*Case, []*Out) {
 		// keep outputs at one absolute place so that runs are comparable
 		o2 := w.Opts
 		if absOut {
-			o2.Output = filepath.Join(RootPH, "zz_out", filepath.Base(w.Opts.Output))
+			o2.Output = filepath.Join(RootPH, "zz_out", w.Opts.Output)
 			var so []Pair
 			for _, p := range w.Opts.SchemaOut {
 				v := p.V
@@ -247,7 +290,13 @@ func (p c10) Eval(c *Case, outs []*Out) []Discrepancy {
 			continue
 		}
 		if o.Res.Exit != 0 {
-			add("V", "valid-world-fails:"+failClass(o.Stderr), fmt.Sprintf("every reference has an existing target, yet exit %d: %s", o.Res.Exit, clip(o.Stderr)))
+			fc := failClass(o.Stderr)
+			if meta.MergedRel {
+				fc += ":merged-target-has-relative-ref"
+			} else if meta.CrossPkgEnum && fc == "enum-has-non-primitive" {
+				fc += ":crosspackage-merged-integer-enum"
+			}
+			add("V", "valid-world-fails:"+fc, fmt.Sprintf("every reference has an existing target, yet exit %d: %s", o.Res.Exit, clip(o.Stderr)))
 			continue
 		}
 		outputs := Outputs(&c.Runs[i].Spec, o)
@@ -269,31 +318,46 @@ func (p c10) Eval(c *Case, outs []*Out) []Discrepancy {
 		for path, b := range outputs {
 			files[path] = ParseGo(b)
 		}
-		// S: each marker declared at most once
-		holder := map[string][2]string{} // marker -> (path, struct)
-		for mk := range meta.Markers {
-			var found [][2]string
+		// S: each marker is declared exactly once in the package its schema maps to
+		type carrier struct{ path, pkg, name string }
+		holder := map[string]carrier{}
+		for mk, tag := range meta.Markers {
+			var found []carrier
+			re := markerRe(mk)
 			for path, g := range files {
 				if g.Err != nil {
 					continue
 				}
-				re := markerRe(mk)
 				for k, txt := range g.Decls {
-					if strings.HasPrefix(k, "type ") && re.MatchString(txt) && isOwnMarker(txt, mk, meta.Markers) {
-						found = append(found, [2]string{path, strings.TrimPrefix(k, "type ")})
+					if strings.HasPrefix(k, "type ") && re.MatchString(txt) && !strings.Contains(txt, `:"cb_`) {
+						found = append(found, carrier{path, g.Pkg, strings.TrimPrefix(k, "type ")})
 					}
 				}
 			}
-			sort.Slice(found, func(a, b int) bool { return found[a][0]+found[a][1] < found[b][0]+found[b][1] })
-			if len(found) > 1 {
-				add("S", "target-declared-more-than-once", fmt.Sprintf("marker %s is carried by %v: the referenced schema got several Go types", mk, found))
+			sort.Slice(found, func(a, b int) bool { return found[a].path+found[a].name < found[b].path+found[b].name })
+			var own []carrier
+			for _, c := range found {
+				if c.pkg == meta.PkgOf[tag] {
+					own = append(own, c)
+				}
 			}
-			if len(found) >= 1 {
-				holder[mk] = found[0]
+			if len(own) > 1 {
+				add("S", "target-declared-more-than-once", fmt.Sprintf("marker %s is carried by %v in its own package: the referenced schema got several Go types", mk, own))
+			}
+			if len(found) > len(own) {
+				cls := "target-copied-into-another-package"
+				if meta.CrossPkgAnyOf {
+					cls += ":crosspackage-anyOf-ref"
+				}
+				add("S", cls, fmt.Sprintf("marker %s (package %s) is also carried by a full copy elsewhere: %v", mk, meta.PkgOf[tag], found))
+			}
+			if len(own) >= 1 {
+				holder[mk] = own[0]
 			}
 		}
 		// A: attribution
 		typeOf := map[string]string{} // model target -> go type used by referrers
+		recCombo := meta.RecCombo
 		for _, r := range meta.Refs {
 			fromMk := "mk_" + r.FromTag
 			if r.FromDef != "" {
@@ -303,40 +367,64 @@ func (p c10) Eval(c *Case, outs []*Out) []Discrepancy {
 			if !ok {
 				continue // the referring struct is not part of this run's output
 			}
-			ft := FieldType(outputs[h[0]], h[1], r.Prop)
+			ft := FieldType(outputs[h.path], h.name, r.Prop)
 			if ft == "" {
-				add("A", "ref-field-missing", fmt.Sprintf("struct %s (marker %s) has no field for property %q ($ref %q)", h[1], fromMk, r.Prop, r.Ref))
+				add("A", "ref-field-missing", fmt.Sprintf("struct %s (marker %s) has no field for property %q ($ref %q)", h.name, fromMk, r.Prop, r.Ref))
 				continue
 			}
 			base := stripType(ft)
+			pkg := h.pkg
 			if j := strings.LastIndex(base, "."); j >= 0 {
-				base = base[j+1:]
+				pkg, base = base[:j], base[j+1:]
 			}
 			toMk := "mk_" + r.ModelTag
 			if r.ModelDef != "" {
 				toMk += "_" + r.ModelDef
 			}
-			th, ok := holder[toMk]
-			if !ok {
-				add("A", "target-not-emitted", fmt.Sprintf("$ref %q (property %q of %s) should denote %s but no emitted struct carries %s; field type is %s", r.Ref, r.Prop, h[1], toMk, toMk, ft))
+			if r.Combo != "" {
+				if base == "interface{}" && recCombo {
+					continue // a reference cycle through the combinator collapses to interface{}
+				}
+				// the field's struct is a merged copy: it must carry the target's marker
+				txt := ""
+				for _, g := range files {
+					if g.Err == nil && g.Pkg == pkg {
+						if t, ok := g.Decls["type "+base]; ok {
+							txt = t
+						}
+					}
+				}
+				if !markerRe(toMk).MatchString(txt) {
+					actual := "no marker"
+					for mk := range meta.Markers {
+						if markerRe(mk).MatchString(txt) {
+							actual = mk
+						}
+					}
+					add("A", "combinator-ref-bound-to-wrong-target:"+r.Spelling+relSuffix(meta), fmt.Sprintf("%s branch $ref %q in %s (property %q) should merge %s but the field type %s carries %s", r.Combo, r.Ref, r.FromTag, r.Prop, toMk, ft, actual))
+				}
 				continue
 			}
-			if th[1] != base {
-				// which marker does the actual type carry?
+			th, ok := holder[toMk]
+			if !ok {
+				add("A", "target-not-emitted", fmt.Sprintf("$ref %q (property %q of %s) should denote %s but package %s has no struct carrying it; field type is %s", r.Ref, r.Prop, h.name, toMk, meta.PkgOf[r.ModelTag], ft))
+				continue
+			}
+			if th.name != base || th.pkg != pkg {
 				actual := "no marker"
 				for mk, hh := range holder {
-					if hh[1] == base {
+					if hh.name == base && hh.pkg == pkg {
 						actual = mk
 					}
 				}
-				add("A", "ref-bound-to-wrong-target:"+r.Spelling, fmt.Sprintf("$ref %q in %s (property %q) should denote %s (type %s) but the field has type %s, which carries %s", r.Ref, r.FromTag, r.Prop, toMk, th[1], ft, actual))
+				add("A", "ref-bound-to-wrong-target:"+r.Spelling+relSuffix(meta), fmt.Sprintf("$ref %q in %s (property %q) should denote %s (type %s.%s) but the field has type %s (package %s), which carries %s", r.Ref, r.FromTag, r.Prop, toMk, th.pkg, th.name, ft, pkg, actual))
 				continue
 			}
 			key := r.ModelTag + "#" + r.ModelDef
-			if old, ok := typeOf[key]; ok && old != base {
-				add("S", "referrers-use-different-types", fmt.Sprintf("target %s is %s for one referrer and %s for another", key, old, base))
+			if old, ok := typeOf[key]; ok && old != pkg+"."+base {
+				add("S", "referrers-use-different-types", fmt.Sprintf("target %s is %s for one referrer and %s for another", key, old, pkg+"."+base))
 			}
-			typeOf[key] = base
+			typeOf[key] = pkg + "." + base
 		}
 		// P: no by-value struct cycle
 		if vc := valueCycle(files); vc != "" {
@@ -359,18 +447,12 @@ func tailArgs(a []string) []string {
 
 func failClass(stderr []byte) string {
 	s := string(stderr)
-	for _, k := range []string{"cannot resolve schema", "definition does not exist", "cannot load schema", "conflict", "no root", "could not merge", "invalid type"} {
+	for _, k := range []string{"enum has non-primitive", "cannot resolve schema", "definition does not exist", "cannot load schema", "conflict", "no root", "could not merge", "invalid type"} {
 		if strings.Contains(s, k) {
 			return strings.ReplaceAll(k, " ", "-")
 		}
 	}
 	return "other"
-}
-
-// isOwnMarker: struct text carries marker mk as one of its own fields and mk is
-// the most specific marker of that name (mk_t0 is a prefix of mk_t0_T0Da).
-func isOwnMarker(txt, mk string, all map[string]string) bool {
-	return markerRe(mk).MatchString(txt)
 }
 
 // valueCycle looks for a cycle among struct types that contain each other by
@@ -444,6 +526,63 @@ func (p c10) Nontrivial(c *Case, outs []*Out) bool {
 	for _, r := range meta.Refs {
 		if !r.LocalOnly {
 			return true
+		}
+	}
+	return false
+}
+
+func relSuffix(m c10Meta) string {
+	if m.MergedRel {
+		return ":merged-target-has-relative-ref"
+	}
+	return ""
+}
+
+// hasRelativeRef: does the subtree contain a $ref that is not absolute?
+func hasRelativeRef(v any) bool {
+	switch x := v.(type) {
+	case Obj:
+		for _, kv := range x {
+			if kv.K == "$ref" {
+				if s, ok := kv.V.(string); ok {
+					t := strings.TrimPrefix(s, "file://")
+					if !strings.HasPrefix(t, RootPH) && !strings.HasPrefix(t, "/") && !strings.HasPrefix(s, "http") {
+						return true
+					}
+				}
+			}
+			if hasRelativeRef(kv.V) {
+				return true
+			}
+		}
+	case []any:
+		for _, e := range x {
+			if hasRelativeRef(e) {
+				return true
+			}
+		}
+	}
+	return false
+}
+
+func hasIntegerEnum(v any) bool {
+	switch x := v.(type) {
+	case Obj:
+		if t, _ := x.Get("type"); t == "integer" {
+			if _, ok := x.Get("enum"); ok {
+				return true
+			}
+		}
+		for _, kv := range x {
+			if hasIntegerEnum(kv.V) {
+				return true
+			}
+		}
+	case []any:
+		for _, e := range x {
+			if hasIntegerEnum(e) {
+				return true
+			}
 		}
 	}
 	return false
